@@ -114,6 +114,11 @@ class FaultyCache(Cache):
     def get(self, evaluatable, options):
         f = self._fault("get")
         fp = evaluatable.fingerprint(options)
+        if f == "fail-get-chained":
+            try:
+                raise OSError("stored entry is unreadable")
+            except OSError as e:
+                raise CacheGetFailure(evaluatable, options, self) from e
         if f in ("miss", "fail-get"):
             raise CacheGetFailure(evaluatable, options, self)
         if f == "forget":
@@ -133,18 +138,61 @@ class FaultyCache(Cache):
 
     def exists(self, evaluatable, options):
         f = self._fault("exists")
-        fp = evaluatable.fingerprint(options)
+        # (a backend need not compute labrea's fingerprint to answer — e.g. a probabilistic filter: the lie and the
+        #  miss are decided before the key is looked at, so they also happen for options under which keys() fails)
         if f == "miss":
-            return False
-        if f == "forget":
-            self.store.pop(fp, None)
             return False
         if f == "lie-exists":
             return True
+        fp = evaluatable.fingerprint(options)
+        if f == "forget":
+            self.store.pop(fp, None)
+            return False
         return fp in self.store
 
     def __repr__(self):
         return f"FaultyCache({self.name})"
+
+
+class FaultyCacheDefaultExists(Cache):
+    """Like FaultyCache but relies on the Cache ABC's default exists() (which tries get()).  A failing get may
+    chain the backend's own error (`raise CacheGetFailure(...) from OSError(...)`) — still the documented signal."""
+
+    def __init__(self, name):
+        self.name = name
+        self.store = {}
+
+    def _fault(self, method):
+        w = rt.CUR
+        return None if w is None else w.backend_fault(self.name, method)
+
+    def get(self, evaluatable, options):
+        f = self._fault("get")
+        fp = evaluatable.fingerprint(options)
+        if f == "forget":
+            self.store.pop(fp, None)
+        if f == "fail-get-chained":
+            try:
+                raise OSError("stored entry is unreadable")
+            except OSError as e:
+                raise CacheGetFailure(evaluatable, options, self) from e
+        if f in ("miss", "fail-get"):
+            raise CacheGetFailure(evaluatable, options, self)
+        try:
+            return self.store[fp]
+        except KeyError as e:
+            raise CacheGetFailure(evaluatable, options, self) from e
+
+    def set(self, evaluatable, options, value):
+        f = self._fault("set")
+        fp = evaluatable.fingerprint(options)
+        if f in ("fail-readback", "forget"):
+            self.store.pop(fp, None)
+            return
+        self.store[fp] = value
+
+    def __repr__(self):
+        return f"FaultyCacheDefaultExists({self.name})"
 
 
 # ---------------------------------------------------------------- stubs
@@ -428,6 +476,8 @@ class Program:
             kw["cache"] = self.caches[n["id"]] = RecordingCache(name)
         elif ck == "faulty":
             kw["cache"] = self.caches[n["id"]] = FaultyCache(name)
+        elif ck == "faulty_ne":
+            kw["cache"] = self.caches[n["id"]] = FaultyCacheDefaultExists(name)
         ds = factory(fn, **kw)
         for alias, impl in n.get("overloads", []):
             self.register(ds, alias, impl, cache_kind=ck)
@@ -452,6 +502,8 @@ class Program:
             new.set_cache(RecordingCache(impl["fn"]))
         elif cache_kind == "faulty":
             new.set_cache(FaultyCache(impl["fn"]))
+        elif cache_kind == "faulty_ne":
+            new.set_cache(FaultyCacheDefaultExists(impl["fn"]))
         elif cache_kind == "nocache":
             new.set_cache(labrea.cache.NoCache())
         if impl.get("id"):
